@@ -20,7 +20,8 @@ def FieldOps.parserShaped (o : FieldOps) : Bool :=
 
 mutual
 def Pat.parserShaped : Pat → Bool
-  | .struct _ _ items _ | .enum _ _ items | .tuple _ _ items | .slice _ _ items | .set _ _ items _
+  | .struct _ path items rest => (path.isSome || rest) && items.parserShaped   -- a wildcard struct `_ { .. }` always ends in `..`
+  | .enum _ _ items | .tuple _ _ items | .slice _ _ items | .set _ _ items _
   | .map _ _ items _ => items.parserShaped
   | _ => true
 def Items.parserShaped : Items → Bool
@@ -58,7 +59,11 @@ theorem parserShaped_no_panic (o : FieldOps) (h : o.parserShaped = true) : o.pan
 mutual
 /-- **The code generator never panics on a pattern the parser can produce.** -/
 theorem C13_expand_no_panic : ∀ p : Pat, p.parserShaped = true → p.expandPanics = false
-  | .struct _ _ items _, h | .enum _ _ items, h | .tuple _ _ items, h | .slice _ _ items, h
+  | .struct _ _ items _, h => by
+    simp only [Pat.parserShaped, Bool.and_eq_true] at h
+    simp only [Pat.expandPanics]
+    exact items_no_panic items h.2
+  | .enum _ _ items, h | .tuple _ _ items, h | .slice _ _ items, h
   | .set _ _ items _, h | .map _ _ items _, h => by
     simp only [Pat.parserShaped] at h
     simp only [Pat.expandPanics]
